@@ -47,6 +47,9 @@ fn build(tier: Tier) -> Vec<Scenario> {
         Tier::Quick => vec![
             JobCfg { layout: Layout::Local(2), batch: BatchMode::fixed(2), capacity: 0 },
             JobCfg { layout: Layout::Local(2), batch: BatchMode::single(), capacity: 1 },
+            // timed receives (the default kind of batching) and a second host
+            JobCfg { layout: Layout::Local(2), batch: BatchMode::adaptive(2, std::time::Duration::from_millis(10)), capacity: 0 },
+            JobCfg { layout: Layout::Remote(vec![1, 1]), batch: BatchMode::fixed(2), capacity: 0 },
         ],
         Tier::Thorough => vec![
             JobCfg { layout: Layout::Local(1), batch: BatchMode::single(), capacity: 0 },
@@ -70,6 +73,7 @@ fn build(tier: Tier) -> Vec<Scenario> {
                     SrcKind::Iter,
                     cfg,
                     if remote { bound - 1 } else { bound },
+                    // (quick: remote layout with the default schedule of each canonical order only)
                     &ORDERS3[..if tier == Tier::Quick { 1 } else { 3 }],
                     String::new(),
                 );
@@ -161,6 +165,9 @@ fn build(tier: Tier) -> Vec<Scenario> {
                 out.push(s);
             }
         }
+    }
+    if tier == Tier::Quick {
+        deepen(&mut out, &|n| n.contains("PanicAt(1, 2)") && n.contains("local2-fixed2") && (n.contains("chain-second-block") || n.contains("join-left-input") || n.contains("groupby-fold-upstream")));
     }
     out
 }
